@@ -170,6 +170,15 @@ impl Encoder<Message<(Response<()>, BodySize)>> for Codec {
                     self.conn_type
                 };
 
+                // HTTP/1.0 has no chunked coding: a body of unknown length ends with the connection
+                if length == BodySize::Stream
+                    && self.version < Version::HTTP_11
+                    && res.head().chunked()
+                    && !self.flags.contains(Flags::HEAD)
+                {
+                    self.conn_type = ConnectionType::Close;
+                }
+
                 // encode message
                 self.encoder.encode(
                     dst,
